@@ -486,34 +486,42 @@ package protocol
 //@   modifies h._all, membut(parseArr)
 //@   allocates
 //@   ensures h.disableNormalizing == old(h.disableNormalizing)
+//@   ensures h.contentLength == old(h.contentLength)
 //@ func RequestHeader.SetRequestURIBytes(h, requestURI)
 //@   modifies h._all, membut(parseArr)
 //@   allocates
 //@   ensures h.disableNormalizing == old(h.disableNormalizing)
+//@   ensures h.contentLength == old(h.contentLength)
 //@ func RequestHeader.SetHostBytes(h, host)
 //@   modifies h._all, membut(parseArr)
 //@   allocates
 //@   ensures h.disableNormalizing == old(h.disableNormalizing)
+//@   ensures h.contentLength == old(h.contentLength)
 //@ func RequestHeader.SetUserAgentBytes(h, userAgent)
 //@   modifies h._all, membut(parseArr)
 //@   allocates
 //@   ensures h.disableNormalizing == old(h.disableNormalizing)
+//@   ensures h.contentLength == old(h.contentLength)
 //@ func RequestHeader.SetContentTypeBytes(h, contentType)
 //@   modifies h._all, membut(parseArr)
 //@   allocates
 //@   ensures h.disableNormalizing == old(h.disableNormalizing)
+//@   ensures h.contentLength == old(h.contentLength)
 //@ func RequestHeader.SetContentLengthBytes(h, contentLength)
 //@   modifies h._all, membut(parseArr)
 //@   allocates
 //@   ensures h.disableNormalizing == old(h.disableNormalizing)
+//@   ensures h.contentLength == old(h.contentLength)
 //@ func RequestHeader.AddArgBytes(h, key, value, noValue)
 //@   modifies h._all, alltype(protocol.argsKV), membut(parseArr)
 //@   allocates
 //@   ensures h.disableNormalizing == old(h.disableNormalizing)
+//@   ensures h.contentLength == old(h.contentLength)
 //@ func RequestHeader.SetArgBytes(h, key, value, noValue)
 //@   modifies h._all, alltype(protocol.argsKV), membut(parseArr)
 //@   allocates
 //@   ensures h.disableNormalizing == old(h.disableNormalizing)
+//@   ensures h.contentLength == old(h.contentLength)
 //@ func RequestHeader.PeekArgBytes(h, key) r
 //@ func Trailer.SetTrailers(t, trailers) err
 //@   modifies t._all, alltype(protocol.argsKV), membut(parseArr)
